@@ -187,3 +187,17 @@ Example C01_reference_conditional_yields_value :
      Full.JExpr (Full.XMCall (Full.XVar o) m [])]
   = ([Full.WBool false; Full.WBool true], Full.FNormal).
 Proof. vm_compute. reflexivity. Qed.
+
+(* otto's deviation on the value of a block / try / with that produces no value (pinned probes 40-45 of the correspondence
+   run; 44 and 45 are controls that agree) *)
+Theorem C01_valueless_block_undefined_refuted :
+  exists id, C01.Corr.pin_model id <> C01.Corr.pin_spec id /\
+             C01.Corr.pin_model 44 = C01.Corr.pin_spec 44 /\ C01.Corr.pin_model 45 = C01.Corr.pin_spec 45.
+Proof. exists 40%Z. repeat split; vm_compute; congruence. Qed.
+Print Assumptions C01_valueless_block_undefined_refuted.
+
+(* the ES5 side: 7; { }  and  7; try { } finally { }  have the value 7 (12.1: an empty block is the empty completion) *)
+Example C01_reference_valueless_block :
+  Full.run_program_cv 60 [Full.JExpr (Full.XLit (Full.WNum 7)); Full.JBlock []] = ([], Full.FNormal, Full.WNum 7) /\
+  Full.run_program_cv 60 [Full.JExpr (Full.XLit (Full.WNum 7)); Full.JTry [] None (Some [])] = ([], Full.FNormal, Full.WNum 7).
+Proof. split; vm_compute; reflexivity. Qed.
